@@ -218,6 +218,11 @@ func MatchesClosure(T, V *abi.Type) bool {
 	} else if V == nil || !V.IsClosure() {
 		return false
 	}
+	// A defined func type (type F func()) is identical only to itself: its
+	// descriptor is unique, so the pointer test above has already decided.
+	if T.TFlag&abi.TFlagNamed != 0 || V.TFlag&abi.TFlagNamed != 0 {
+		return false
+	}
 	return T.StructType().Fields[0].Typ == V.StructType().Fields[0].Typ
 }
 
